@@ -159,12 +159,40 @@ def run(ctx: core.Ctx):
             pass
         if t.is_monotonic():
             ctx.violation(f"{k}.is_monotonic", {"k": k}, False, True)
-    d = fl.Discrete("d", fl.Discrete.to_xy([0.0, 1.0], [0.0, 1.0]))
-    try:
-        d.tsukamoto(0.5)
-        ctx.violation("Discrete.tsukamoto/refusal", {"k": "Discrete"}, "an exception", "returned")
-    except Exception:
-        pass
+    # a term of any other kind: either it does not declare itself monotonic and refuses, or it declares itself monotonic and then
+    # the inverse relation is owed for it as for the six (tables: increasing, decreasing, not spanning [0, 1], flat, not monotone)
+    tables = {"increasing": ([0.0, 0.25, 1.0], [0.0, 0.5, 1.0]), "decreasing": ([0.0, 0.5, 1.0], [1.0, 0.25, 0.0]), "partial-increasing": ([0.0, 1.0], [0.25, 0.75]),
+              "partial-decreasing": ([-1.0, 0.0, 2.0], [0.75, 0.5, 0.125]), "hat": ([0.0, 0.5, 1.0], [0.0, 1.0, 0.0]), "two-points": ([0.0, 1.0], [0.0, 1.0])}
+    for name, (xs_, ys_) in tables.items():
+        for h in (1.0, 0.5):
+            d = fl.Discrete("d", fl.Discrete.to_xy(xs_, ys_), h)
+            ctx.count()
+            if not d.is_monotonic():
+                try:
+                    r = d.tsukamoto(0.5 * h)
+                    ctx.violation("Discrete.tsukamoto/refusal", {"k": "Discrete", "table": name, "height": h}, "an exception (the term does not declare itself monotonic)", repr(r))
+                except Exception:
+                    pass
+                continue
+            lo_, hi_ = min(ys_) * h, max(ys_) * h
+            zs_ = []
+            for f in (0.125, 0.25, 0.5, 0.75, 0.875):
+                y = lo_ + f * (hi_ - lo_)
+                try:
+                    z = float(np.asarray(d.tsukamoto(y), dtype=float))
+                    m = float(np.asarray(d.membership(z), dtype=float))
+                except Exception as ex:
+                    ctx.violation("Discrete.tsukamoto/declared-monotonic/raises", {"k": "Discrete", "table": name, "height": h, "y": y}, "a finite z with membership(z) = y", f"{type(ex).__name__}: {ex}")
+                    break
+                zs_.append(z)
+                if not math.isfinite(z) or abs(m - y) > 1e-9:
+                    ctx.violation("Discrete.tsukamoto/declared-monotonic/inverse", {"k": "Discrete", "table": name, "height": h, "y": y}, y, [z, m],
+                                  note=f"the table declares itself monotonic: z({y}) = {z}, membership(z) = {m}")
+                    break
+            else:
+                inc = ys_[-1] > ys_[0]
+                if any((b <= a) if inc else (b >= a) for a, b in zip(zs_, zs_[1:])):
+                    ctx.violation("Discrete.tsukamoto/declared-monotonic/order", {"k": "Discrete", "table": name, "height": h}, "monotone in the direction of the term", zs_)
     ctx.exhaustive = True
     ctx.rule = ("TLC enumerates 6 monotonic kinds x all parameter pairs of the two palettes (both directions) x 3 heights x 13 fractions of the height; "
                 "the driver adds y next to 0, h/2 (both neighbours) and h; distinct = (term, y) pairs, all non-trivial (0 < y < h)")
